@@ -22,6 +22,8 @@ LITS = [
     ('"a\\' + NL + '   b"', "cont-spaces"), ('"a\\' + NL + '\t' + NL + '  b"', "cont-tab-newline"), ('"a\\' + NL + '\u00a0b"', "cont-nbsp-kept"),
     ('"a\\' + NL + '\u3000b"', "cont-u3000-kept"), ('"b\\' + NL + '"', "cont-then-end"), ('"a\\' + NL + NL + NL + 'b"', "cont-blank-lines"),
     ('r"a\\n"', "raw0"), ('r#"a"b"#', "raw1"), ('r##"a"#b"##', "raw2"), ('r""', "raw-empty"), ('r"\\"', "raw-backslash"),
+    ('r#""a""#', "raw-edge-quote"), ('r#"b""#', "raw-edge-quote"), ('r#""b"#', "raw-edge-quote"), ('r##""#x"##', "raw-edge-quote"), ('r##"x#""##', "raw-edge-quote"), ('r#"""#', "raw-edge-quote"),
+    ('r#""""#', "raw-edge-quote"), ('r###"a"##b"###', "raw3"), ('r#"#"#', "raw-hash-content"), ('r##"#a#"##', "raw-hash-content"), ('concat!(r#"""#, "q")', "concat-raw-edge-quote"), ('r"ñ\\u{61}"', "raw-no-escape"),
     ('"ñ"', "multibyte"), ('"個🙂"', "multibyte"), ('"añ"', "multibyte"), ('"ña"', "multibyte"), ('"\u00a0"', "multibyte"),
     ('concat!("a", "b")', "concat"), ('concat!("a", r#"\\"#, "\\n")', "concat"), ('concat!(concat!("a", "b"), "a")', "concat-nested"), ('concat!("", "ñ")', "concat"),
     ('concat!("a\\' + NL + '  ", "b")', "concat-cont"),
